@@ -34,6 +34,12 @@ func cadenceCase(c *fw.Ctx, r *fw.Rand) {
 	ttlA := time.Duration(r.Range(2, 4)) * time.Second
 	ttlB := time.Duration(r.Range(2, 4)) * time.Second
 	ping := time.Duration(r.Range(1, 2)) * time.Second
+	// the ping is published once per ping interval, for every interval: with a long one
+	// only the first publication can be observed, and its lifetime must span the interval
+	longPing := r.Intn(3) == 0
+	if longPing {
+		ping = []time.Duration{20 * time.Second, 45 * time.Second, 10 * time.Minute}[r.Intn(3)]
+	}
 	errMode := r.Pick("none", "isolated", "double")
 	withErrors := errMode != "none"
 	infA := sim.NewStubInformer("freespace")
@@ -88,6 +94,18 @@ func cadenceCase(c *fw.Ctx, r *fw.Rand) {
 	for _, name := range []string{"freespace", "numpin", "ping"} {
 		ps := byName[name]
 		key := fmt.Sprintf("cadence/%s/errors=%v", name, withErrors)
+		if name == "ping" && longPing {
+			c.Eval("cadence/ping/long-interval")
+			if len(ps) == 0 {
+				c.Violation("C09/cadence/too-few-publications/ping", "no ping was published at start", nil)
+				continue
+			}
+			life := time.Duration(ps[0].Metric.Expire - ps[0].At.UnixNano())
+			if life <= ping+ping/20 {
+				c.Violation("C09/cadence/ping-lifetime-does-not-span-the-ping-interval", fmt.Sprintf("monitor_ping_interval is %s (the next ping comes then) and the published ping expires after %s: a healthy peer looks failed in between", ping, life), nil)
+			}
+			continue
+		}
 		if len(ps) < 3 {
 			c.Violation("C09/cadence/too-few-publications/"+name, fmt.Sprintf("metric %s was published %d times in %s (ttl-based cadence expects several)", name, len(ps), longest*2+longest/2), nil)
 			continue
